@@ -1,5 +1,5 @@
 from vdriver import Group
-META = {'level': 'other'}
+META = {'level': 'other', 'assumptions': ['nonce freshness and the ChaCha20 call are not decided here (random draws are arbitrary values; the cipher is C09)']}
 def groups(tier):
     K = dict(unit='session_frame', harness='C14/frame.c', backend=['sat', 'cadical'], timeout=300, replay='frame')
     return [Group('frame.header', entry='h_header', unwind=3, kind='unbounded',
